@@ -85,7 +85,8 @@ def mk(ops, foreign=False, sid=None, locid0="4711", rsync=False):
 
 
 def burst(rng_or_none, n, ds=0):
-    """n single-entity batches (about 7 Badger versions each): pushes the store version over 127 / 255 / 65535"""
+    """n single-entity batches (about 3.7 Badger versions each once the dataset exists): 40 push the store version
+    over 127, 72 over 255, 18000 over 65535"""
     return [W(ds, i % 6, (i * 5 + 1) % 8) for i in range(n)]
 
 
@@ -122,7 +123,8 @@ def witness_cases():
         mk([W(0, 1, 3), F, W(0, 2, 4), B], rsync=True),
         mk([W(0, 1, 3), B, W(0, 2, 4), F, B, R, F, W(1, 1, 1), B, B], rsync=True),
         # store version beyond 127 / 255 at the time of a run, then restart, write, run
-        mk(burst(None, 20) + [B, R, W(1, 1, 1), B]),
+        mk(burst(None, 40) + [B, R, W(1, 1, 1), B]),
+        mk(burst(None, 72) + [B, R, W(1, 1, 1), W(1, 2, 2), B]),
         mk(burst(None, 40) + [B, R, W(1, 1, 1), W(1, 2, 2), B, B]),
     ]
 
@@ -201,7 +203,7 @@ def gen(rng, tier):
             ops += [rand_w(rng), B]
             out.append(mk(ops, rsync=True))
         for _ in range(n_burst):    # version boundaries of the cursor encoding
-            n = rng.choice([17, 18, 19, 22, 35, 36, 37, 40])
+            n = rng.choice([31, 33, 36, 40, 66, 70, 75])
             tail = rand_hist(rng, 5)
             out.append(mk(burst(rng, n, rng.below(2)) + [B, R, rand_w(rng), B] + tail))
     if tier == "quick":
@@ -227,8 +229,8 @@ def gen(rng, tier):
         out.append(mk(rand_hist(rng, 14)))
     idcases(300, 150)
     special(120, 80, 60, 30)
-    # one history that takes the store version past 65535 (about 9400 single-entity batches)
-    out.append(mk(burst(rng, 9500) + [B, R, W(1, 1, 1), B]))
+    # one history that takes the store version past 65535 (about 18000 single-entity batches)
+    out.append(mk(burst(rng, 18000) + [B, R, W(1, 1, 1), B]))
     return out
 
 
